@@ -428,6 +428,7 @@ func (stub *stub) Start(ctx context.Context) (retErr error) {
 		stub.close()
 		return err
 	}
+	verifHook("start.beforeCfgWait")
 
 	if err = <-stub.cfgErrC; err != nil {
 		return err
@@ -577,6 +578,7 @@ func (stub *stub) register(ctx context.Context) error {
 
 // Handle a lost connection.
 func (stub *stub) connClosed() {
+	verifHook("connClosed.enter")
 	stub.Lock()
 	stub.close()
 	stub.Unlock()
